@@ -212,6 +212,9 @@ def _reaction_cases(tier):
             for sim in ("Elastic", "Thermal"):
                 for load in ("nodal", "body"):
                     out.append({"kind": "reaction", "sim": sim, "dim": dim, "mesh": md, "load": load})
+                # the same questions asked of a STORED iteration: the simulation moves on to a mesh of the same size (same connectivity, other
+                # coordinates), solves and stores there, and iteration 0 is restored: reactions, K u and the balance are those of iteration 0
+                out.append({"kind": "reaction", "sim": sim, "dim": dim, "mesh": md, "load": "nodal", "restored": True})
             # a user weak form with a NON symmetric operator (rows of K and columns of K are different things)
             out.append({"kind": "reaction", "sim": "WeakNonsym", "dim": dim, "mesh": md, "load": "nodal"})
     # phase-field displacement problem after a NON proportional two-step history with a strain-sign dependent split and damage: the
@@ -1170,6 +1173,28 @@ def _run_reaction(case):
             b = rng("c16body", sim, dim).uniform(0.5, 2.0, size=len(unk))
             simu.add_volumeLoad(nodes, [float(x) for x in b], unk)
         u = simu.Solve()
+    if case.get("restored"):
+        key["restored"] = True
+        with _quiet():
+            simu.Save_Iter()
+            m2 = mesh.copy()
+            X = np.asarray(m2.coord, dtype=float)
+            X2 = X.copy()
+            X2[:, 0] = X[:, 0] * (1.0 + 0.10 * X[:, 0])
+            X2[:, 1] = X[:, 1] * (1.0 + 0.07 * X[:, 0])
+            m2.coord = X2
+            simu.mesh = m2   # (the setter clears the conditions: they are entered again, on the same nodes)
+            simu.add_dirichlet(cl, [0.0] * len(unk), unk)
+            simu.add_neumann(ld, [float(p) for p in P], unk)
+            simu.Solve()
+            simu.Save_Iter()
+            simu.Set_Iter(0)
+        pt0 = simu.problemType
+        u0 = np.asarray(simu._Get_u_n(pt0), dtype=float)
+        if simu.mesh.Nn != mesh.Nn or np.abs(np.asarray(simu.mesh.coord) - np.asarray(mesh.coord)).max() > 0 or np.abs(u0 - u).max() > 1e-12 * np.abs(u).max():
+            return {"violations": [viol("restored_state", "Set_Iter(0) did not bring back the mesh and the solution of iteration 0", **key)],
+                    "fingerprint": fp("restored_state", case["mesh"]["id"]), "nontrivial": True, "transitions": 6, "outcome": "restored_state"}
+        u = u0
     K = simu.Get_K_C_M_F()[0]
     F = np.asarray(simu.Bc_vector_Neumann(), dtype=float).ravel()  # assembled nodal loads (point loads + integrated body load)
     v, obs = [], []
